@@ -681,5 +681,5 @@ func main() {
 		pprof.StartCPUProfile(f)
 		defer pprof.StopCPUProfile()
 	}
-	h.Main(h.Harness{Gen: gen, NewCase: newRunner})
+	h.Main(h.Harness{Gen: gen, NewCase: newRunner, OpTimeout: 5 * time.Minute})
 }
